@@ -13,6 +13,7 @@ import (
 	"hash/crc32"
 	"io"
 	"math/rand"
+	"net"
 	"os"
 	"path/filepath"
 	"sort"
@@ -478,6 +479,24 @@ func ZipMaterializeTree(dir string, nodes []*ZipTreeNode) error {
 				return err
 			}
 		case 3:
+			if n.Name == "go.mod" {
+				// zip.CheckDir/CreateFromDir read <dir>/go.mod with os.ReadFile to find the go
+				// version; opening a FIFO blocks forever (no writer), which would hang the
+				// harness. An irregular go.mod is materialised as a unix socket instead
+				// (opening it fails at once); such trees are outside C17's directory clause
+				// anyway (regular files and directories only).
+				l, err := net.Listen("unix", p)
+				if err != nil {
+					// path too long for a socket address: a dangling symlink is irregular too
+					if err := os.Symlink("/nonexistent/verif-dangling", p); err != nil {
+						return err
+					}
+					break
+				}
+				l.(*net.UnixListener).SetUnlinkOnClose(false)
+				l.Close()
+				break
+			}
 			if err := syscall.Mkfifo(p, 0o644); err != nil {
 				return err
 			}
